@@ -314,5 +314,89 @@ where
             out.class(&format!("FRI schedule with {} layer(s), remainder of {} coefficient(s)", cfg.num_layers(), (cfg.n / cfg.k.pow(cfg.num_layers() as u32)) / cfg.blowup));
         },
         move |idx| json!({"fri_config": format!("{:?}", c2[idx as usize]), "replaced": "every commitment x 3 replacements x 6 position lists"}),
-    )]
+    ), general_bound_sub::<E, H>(run, &name)]
+}
+
+/// Degree bounds that are NOT of the form 2^k - 1 (the stand-alone verifier takes the bound as a number; STARK callers only
+/// ever pass trace-length-derived bounds): bound + 1 = c * k^L with c in {3, 5, 6, 7}, so that the bound divides evenly through
+/// every layer and `FriVerifier::new` accepts it. The honest prover's proof for a polynomial of EVERY degree in
+/// bound+1 ..= P-1 (P = the next power of two, i.e. the polynomials the evaluation domain can carry beyond the bound) must
+/// not be accepted - "evaluations of a polynomial whose degree exceeds the bound by any amount are rejected".
+fn general_bound_sub<E: Elt, H: ElementHasher<BaseField = E::BaseField> + 'static>(run: &Arc<Run>, name: &str) -> Arc<dyn Sub>
+where
+    E::BaseField: Fld,
+    H::Digest: 'static,
+{
+    let seed = run.seed();
+    let mut cases: Vec<(usize, usize, usize, usize)> = vec![]; // (bound + 1, folding, blowup, remainder max degree)
+    for k in [2usize, 4, 8] {
+        for c in [3usize, 5, 6, 7] {
+            for layers in 1..=3u32 {
+                let m = c * k.pow(layers);
+                let p2 = m.next_power_of_two();
+                if p2 > 256 || m == p2 {
+                    continue;
+                }
+                for blowup in [2usize, 8] {
+                    // remainder limit that gives exactly `layers` layers for the domain p2 * blowup
+                    let rem = p2 / k.pow(layers);
+                    if rem >= 1 && p2 * blowup >= 8 {
+                        cases.push((m, k, blowup, rem - 1));
+                    }
+                }
+            }
+        }
+    }
+    let cases = Arc::new(cases);
+    let c2 = cases.clone();
+    let nm = name.to_string();
+    sub_t(
+        &format!("{name}.degree_bound_not_a_power_of_two"),
+        cases.len() as u64,
+        300,
+        true,
+        move |idx, out| {
+            let (m, k, blowup, rem_deg) = cases[idx as usize];
+            let p2 = m.next_power_of_two();
+            let n = p2 * blowup;
+            let ctx = E::ctx();
+            let opts = FriOptions::new(blowup, k, rem_deg);
+            let tw = fft::get_twiddles::<E::BaseField>(p2);
+            let mut rng = Rng::labelled(seed, &format!("c05-bound-{idx}"));
+            let mut tried = 0u64;
+            for d in m..p2 {
+                // a polynomial of degree exactly d > bound = m - 1
+                let mut poly: Vec<E> = from_refs(&(0..p2).map(|i| if i <= d { rand_el(&mut rng, &ctx) } else { [0u128; 3] }).collect::<Vec<_>>());
+                if poly[d] == E::ZERO {
+                    poly[d] = E::ONE;
+                }
+                let evals: Vec<E> = fft::evaluate_poly_with_offset(&poly, &tw, <E::BaseField as StarkField>::GENERATOR, blowup);
+                for positions in [vec![0usize], vec![1usize, n / 2 + 1], vec![n - 1, 3, 2]] {
+                    let mut channel = DefaultProverChannel::<E, H, DefaultRandomCoin<H>>::new(n, positions.len());
+                    let mut prover = FriProver::<E::BaseField, E, _, H>::new(opts.clone());
+                    prover.build_layers(&mut channel, evals.clone());
+                    let proof = prover.build_proof(&positions);
+                    let coms: Vec<H::Digest> = channel.layer_commitments().to_vec();
+                    let claimed: Vec<E> = positions.iter().map(|p| evals[*p]).collect();
+                    let (o2, pos2) = (opts.clone(), positions.clone());
+                    tried += 1;
+                    let r = pan::catch(move || -> Result<(), String> {
+                        let mut vch = DefaultVerifierChannel::<E, H>::new(proof, coms, n, k).map_err(|e| format!("channel: {e}"))?;
+                        let mut coin = <DefaultRandomCoin<H> as RandomCoin>::new(&[]);
+                        let verifier = FriVerifier::<E, _, H, DefaultRandomCoin<H>>::new(&mut vch, &mut coin, o2, m - 1).map_err(|e| format!("{:?}", e))?;
+                        verifier.verify(&mut vch, &claimed, &pos2).map_err(|e| format!("{:?}", e))
+                    });
+                    let info = || json!({"degree_bound": m - 1, "polynomial_degree": d, "folding": k, "blowup": blowup, "remainder_max_degree": rem_deg, "domain": n, "positions": positions});
+                    match r {
+                        Ok(Err(_)) => out.class("polynomial above a bound that is not 2^k - 1: refused"),
+                        Ok(Ok(())) => out.violation(format!("{nm}: the FRI verifier accepts evaluations of a polynomial whose degree exceeds the claimed bound (a bound that is not of the form 2^k - 1)"), info()),
+                        Err(p) => out.violation(format!("{nm}: the FRI verifier panics for a degree bound that is not of the form 2^k - 1 ({})", p.class()), info()),
+                    }
+                }
+            }
+            out.evals(tried);
+            out.nontrivial_n(tried.max(1));
+        },
+        move |idx| json!({"bound_plus_1": c2[idx as usize].0, "folding": c2[idx as usize].1, "blowup": c2[idx as usize].2, "remainder_max_degree": c2[idx as usize].3}),
+    )
 }
